@@ -19,6 +19,7 @@ EXPLANATION = (
     'Also decided (round 7): The presented key is compared with the configured one by equality; SQL the sqlite storage uses to answer a regex listing is held to the same literal-matching rule as the anchored pattern check. '
     "Not decided: HTTP parsing by wsgiref/urllib, what the operator's regex matches, JSON content."
     'Also decided (round 9): The forwarding proxy is constructed for the request. '
+    'Also decided (round 10): The json encoder behind the gateway encodes the whole result or raises (shared from C01). '
 )
 
 GW = "Pyro5.utils.httpgateway"
